@@ -89,7 +89,16 @@ func runLockstep(c *progCase, synth *rig.Synth, impls []rig.CPU, stats *lockstep
 			mems[i].Poke(p.Addr, p.Val)
 		}
 		cpu.SetMem(mems[i])
-		cpu.Load(c.Init)
+		if c.MemSeed&4 != 0 {
+			// every other case starts from registers set through the exported fields only, on an object that has run
+			// the earlier cases: whatever an interpreter remembers beside its registers accumulates over the whole run
+			if c.MemSeed&8 != 0 {
+				_ = cpu.Inspect() // (a look at the state the last case left behind, right before the registers are set)
+			}
+			cpu.SoftLoadRaw(rig.ArchToRaw(c.Init))
+		} else {
+			cpu.Load(c.Init)
+		}
 		alive[i] = true
 	}
 	if c.Fork {
@@ -101,6 +110,17 @@ func runLockstep(c *progCase, synth *rig.Synth, impls []rig.CPU, stats *lockstep
 	model := c.Init
 	ref.DoLog = true
 	for k := 0; k < c.Steps; k++ {
+		if c.MemSeed&8 != 0 {
+			// the calls a debugger makes between two steps, before the next instruction is even in place: packed flags and
+			// disassembly of whatever lies at the program counter now
+			for i, cpu := range impls {
+				if alive[i] {
+					if msg := cpu.Inspect(); msg != "" {
+						return fmt.Errorf("before step %d: %s: %s", k, cpu.Name(), msg)
+					}
+				}
+			}
+		}
 		if synth != nil {
 			n0 := len(synth.Patches)
 			synth.Instr(model)
